@@ -422,11 +422,14 @@ def r20_11(ctx):
     n = 0
     for pc in nfq.feasible(pcs):
         g = pc["guards"]
+        examined = any(re.search(r"^φ\(.*\)\.data matches Element", k) or re.search(r"\.data matches Element", k) for k in g)
+        if examined:
+            n += 1
+        # the parent of the loop's current node is looked up and found missing (a loop whose variable already IS the next
+        # ancestor - `while let Some(current) = next` - tests the variable itself and has examined the node the turn before)
         no_parent = [k for k, v in g.items() if v is False and re.search(r"^φ\(.*\)\.parent\(\).*matches Some\(_\)(#\d+)?$", k)]
         if not no_parent:
             continue
-        n += 1
-        examined = any(re.search(r"^φ\(.*\)\.data matches Element", k) for k in g)
         if not examined:
             bad = "the walk ends at an ancestor without a parent that was never examined (guards %s): a select at the root of a detached subtree is not found" % [k[-60:] for k in g][:2]
-    ctx.ob("R20.11", "ancestor-walk-examines-the-root-most-ancestor", bad is None and n >= 1, bad or "%d exits at a parentless ancestor, each after examining it" % n, "rcdom Node::get_option_element_nearest_ancestor_select")
+    ctx.ob("R20.11", "ancestor-walk-examines-the-root-most-ancestor", bad is None and n >= 1, bad or "%d paths examine an ancestor; none leaves at a parentless ancestor it has not examined" % n, "rcdom Node::get_option_element_nearest_ancestor_select")
